@@ -82,6 +82,39 @@ impl World {
 		match e {
 			Event::BumpTransaction(b) => {
 				self.out.bump("probe:bump_transaction_event");
+				// C07-5: the feerate requested for one claim never goes down
+				let (cid, rate) = match &b {
+					lightning::events::bump_transaction::BumpTransactionEvent::ChannelClose {
+						claim_id,
+						package_target_feerate_sat_per_1000_weight,
+						..
+					} => (claim_id.0, *package_target_feerate_sat_per_1000_weight),
+					lightning::events::bump_transaction::BumpTransactionEvent::HTLCResolution {
+						claim_id,
+						target_feerate_sat_per_1000_weight,
+						..
+					} => (claim_id.0, *target_feerate_sat_per_1000_weight),
+				};
+				self.out.bump("oracle:C07-5 bump events never ask for a lower feerate");
+				if let Some(old) = self.oracle.last_bump_rate.get(&(n, cid)).cloned() {
+					if rate > old {
+						self.out.bump("probe:bump_event_feerate_raised");
+					}
+					if rate < old {
+						self.violate(
+							"C07",
+							"C07-5 bump event asks for a lower feerate than before",
+							format!(
+								"node {} claim {}: BumpTransaction event targets {} sat/kw after {} sat/kw",
+								n,
+								simcore::hex(&cid[..6]),
+								rate,
+								old
+							),
+						);
+					}
+				}
+				self.oracle.last_bump_rate.insert((n, cid), rate);
 				let r = catch(|| self.nodes[n].bump.handle_event(&b));
 				if let Err((m, l)) = r {
 					self.library_panic("BumpTransaction", m, l);
@@ -404,7 +437,7 @@ impl World {
 		}
 		let _ = other_fees;
 		for n in 0..n_nodes {
-			if self.cheat.as_ref().map(|c| c.cheater == n).unwrap_or(false) {
+			if self.cheat.as_ref().map(|c| c.cheater == n).unwrap_or(false) || self.nodes[n].gone {
 				// the cheater forfeits its channel balance
 				continue;
 			}
@@ -505,7 +538,7 @@ impl World {
 		}
 	}
 
-	fn loss_property(&self, n: usize, props: &[&str]) -> &'static str {
+	pub fn loss_property(&self, n: usize, props: &[&str]) -> &'static str {
 		let forwarder = self.pays.iter().any(|p| {
 			p.paths.iter().any(|x| x.nodes.len() > 1 && x.nodes[..x.nodes.len() - 1].contains(&n))
 		});
@@ -518,6 +551,7 @@ impl World {
 			"onchain" => "C07",
 			"justice" => "C06",
 			"tamper" => "C05",
+			"deadlines" => "C08",
 			"asyncpersist" => "C09",
 			_ => {
 				if forwarder {
@@ -535,6 +569,7 @@ impl World {
 			"C10" => "C10",
 			"C06" => "C06",
 			"C05" => "C05",
+			"C08" => "C08",
 			"C09" => "C09",
 			_ => "C07",
 		}
